@@ -364,6 +364,24 @@ func (w *World) doUserOp(op *UserOp) {
 		ts := metav1.NewTime(w.Sim.Now().Add(time.Duration(op.OffMs) * time.Millisecond).Truncate(time.Second))
 		j.Spec.KillTimestamp = &ts
 		_, err = api.Update("user", j)
+	case "unkillJob":
+		cur := api.Peek(ResJobs, op.NS, op.Name)
+		if cur == nil {
+			err = fmt.Errorf("not found")
+			break
+		}
+		j := cur.(*execution.Job).DeepCopy()
+		if j.Spec.KillTimestamp == nil {
+			err = fmt.Errorf("no kill timestamp")
+			break
+		}
+		if op.OffMs > 0 {
+			ts := metav1.NewTime(w.Sim.Now().Add(time.Duration(op.OffMs) * time.Millisecond).Truncate(time.Second))
+			j.Spec.KillTimestamp = &ts
+		} else {
+			j.Spec.KillTimestamp = nil
+		}
+		_, err = api.Update("user", j)
 	case "deleteJob":
 		err = api.Delete("user", ResJobs, op.NS, op.Name, metav1.DeleteOptions{})
 	case "killAny", "deleteAny":
